@@ -422,7 +422,7 @@ func c12Jobs(tier string) []*SeqJob {
 		}
 		return guard(func() (string, string) { c, d, _ := c12Run(ops[0], ncommon, ops[2], seq, reps); return c, d })
 	}
-	return []*SeqJob{j, c12LemmaJob(tier), c12BucketTagLengthJob(tier), c12DeadDestinationJob(tier)}
+	return []*SeqJob{j, c12LemmaJob(tier), c12BucketTagLengthJob(tier), c12DeadDestinationJob("C12", tier)}
 }
 
 // c12LemmaJob: per-metric accounting. For every shape of a larger alphabet, k copies of the
@@ -842,7 +842,7 @@ func c12BucketTagLengthJob(tier string) *SeqJob {
 // "connection refused", see the C15 job of the same name): whatever the reporter does with a batch whose send
 // failed, no datagram that reaches the healthy destination is longer than the limit, and none of the values arrives
 // there twice. Dead destination first and last, N metrics for N around one, two and several full packets.
-func c12DeadDestinationJob(tier string) *SeqJob {
+func c12DeadDestinationJob(prop, tier string) *SeqJob {
 	const limit = 1440
 	run := func(kind string, deadFirst bool, n int, flushEvery int) (string, string, int) {
 		good := newFastSink()
@@ -911,7 +911,7 @@ func c12DeadDestinationJob(tier string) *SeqJob {
 	if tier == "thorough" {
 		sizes = append(sizes, 400, 1000)
 	}
-	j := &SeqJob{Property: "C12", Name: "packet-limit-with-a-dead-destination", NoBonus: true, Controlled: true}
+	j := &SeqJob{Property: prop, Name: "packet-limit-with-a-dead-destination", NoBonus: true, Controlled: true}
 	j.Run = func(ctx *SeqCtx) {
 		for _, kind := range []string{"compact", "binary"} {
 			for _, df := range []bool{true, false} {
